@@ -97,6 +97,27 @@ pub mod nilu8 {
     }
 }
 
+// Decoy impls: a field of this type always carries a custom codec, so these must never be used
+// by derived code; if they are (a derive that falls back to the type's own impl), the result is
+// visibly wrong instead of a compile error.
+impl<C> Encode<C> for NilU8 {
+    fn encode<W: Write>(&self, e: &mut Encoder<W>, _: &mut C) -> Result<(), encode::Error<W::Error>> {
+        e.str("decoy: NilU8's own Encode impl was used")?.ok()
+    }
+}
+
+impl<'b, C> Decode<'b, C> for NilU8 {
+    fn decode(d: &mut Decoder<'b>, _: &mut C) -> Result<Self, decode::Error> {
+        Err(decode::Error::message("decoy: NilU8's own Decode impl was used").at(d.position()))
+    }
+}
+
+impl<C> CborLen<C> for NilU8 {
+    fn cbor_len(&self, _: &mut C) -> usize {
+        100
+    }
+}
+
 /// Encodes as an indefinite-length array of u8 (exercises `skip()`'s stack mode inside derived decoders).
 #[derive(Debug, Clone, PartialEq, Eq)]
 pub struct IndefArr(pub Vec<u8>);
